@@ -5,6 +5,7 @@
 
 mod enc;
 mod gens;
+mod keyrel;
 mod ops;
 mod programs;
 mod props;
@@ -41,6 +42,12 @@ fn main() {
         usage();
     }
     match args[1].as_str() {
+        "keyrel" => {
+            if args.len() < 4 {
+                usage();
+            }
+            keyrel::main(&args[2], args[3].parse().unwrap_or(6));
+        }
         "replay" => {
             let stdin = std::io::stdin();
             let stdout = std::io::stdout();
